@@ -53,13 +53,20 @@ SmallVals == { AStr(<<>>), AStr(<<118, 49>>), ABin("+", AStr(<<118, 95>>), AKey)
 \* fourteen pairs over seven keys: every key written twice, the later value must win whatever the order of the keys
 KN(i) == <<107, 48 + i>>
 LongPairs(rot) == [i \in 1..14 |-> PP(AStr(KN(((i * rot) % 7) + 1)), AStr(<<118>> \o (IF i < 10 THEN <<48 + i>> ELSE <<49, 48 + (i - 10)>>)))]
-PairSeqs == { LongPairs(r) : r \in {1, 2, 3, 5} } \cup { <<PP(k, v)>> : k \in KeyPool, v \in ValPool }
+\* join around empty parts: the separator stands between every two neighbours, also next to an empty one
+JSl(x, y) == ACall("join", <<AStr(<<47>>), x, y>>)
+JDash3(x, y, z) == ACall("join", <<AStr(<<45>>), x, y, z>>)
+JoinPairs == { <<PP(JSl(AStr(<<>>), AStr(k1)), JDash3(AStr(<<>>), AStr(<<>>), AKey))>>,
+               <<PP(AStr(k1), JDash3(AKey, AStr(<<>>), AStr(<<>>))), PP(JSl(AStr(<<>>), AStr(k2)), AStr(<<118, 49>>))>>,
+               <<PP(JSl(AStr(k1), AStr(<<>>)), JSl(AStr(<<>>), AStr(<<>>))), PP(JDash3(AStr(<<>>), AStr(k2), AStr(<<>>)), JSl(AKey, AInt(1)))>> }
+JoinKeys == { <<JSl(AStr(<<>>), AStr(k1))>>, <<JSl(AStr(<<>>), AStr(k1)), JSl(AStr(k2), AStr(<<>>))>>, <<JDash3(AStr(<<>>), AStr(<<>>), AStr(k1)), AStr(k2)>> }
+PairSeqs == JoinPairs \cup { LongPairs(r) : r \in {1, 2, 3, 5} } \cup { <<PP(k, v)>> : k \in KeyPool, v \in ValPool }
             \cup (IF MaxPairs >= 2 THEN { <<PP(a, b), PP(c, d)>> : a \in KeyPool, b \in ValPool, c \in KeyPool, d \in SmallVals } ELSE {})
             \cup (IF MaxPairs >= 3 THEN { <<PP(a, b), PP(c, d), PP(e, f)>> : a \in SmallKeys, b \in SmallVals, c \in SmallKeys, d \in SmallVals, e \in SmallKeys, f \in SmallVals } ELSE {})
 \* (REMOVE refuses `key`: its key expressions are taken from the pools without KeyOnKey)
 RKeyPool == KeyPool \ {KeyOnKey}
 RSmallKeys == SmallKeys \ {KeyOnKey}
-KeySeqs == { <<a>> : a \in RKeyPool } \cup { <<a, b>> : a \in RKeyPool, b \in RKeyPool }
+KeySeqs == JoinKeys \cup { <<a>> : a \in RKeyPool } \cup { <<a, b>> : a \in RKeyPool, b \in RKeyPool }
            \cup (IF MaxPairs >= 3 THEN { <<a, b, c>> : a \in RSmallKeys, b \in RKeyPool, c \in RSmallKeys } ELSE {})
 
 PriorStores == { <<>>, <<SP(k1, <<111>>), SP(k3, <<111>>)>>, <<SP(<<55>>, <<111>>), SP(<<75, 52>>, <<111>>), SP(k1, <<111>>), SP(k2, <<111>>)>> }
